@@ -25,7 +25,9 @@ import (
 //   c >= 1: (0, n+1) with Confidence 1.
 // n <= 30 (exact regime), masses of Binomial(n,q) in exact integer arithmetic
 // with q the exact rational value of the float64 (ref.C11Binom):
-//   |Confidence - mass(Lo..Hi-1)| <= 1e-12;  Confidence >= c - 1e-12;
+//   |Confidence - mass(Lo..Hi-1)| <= 1e-12;
+//   exact mass(Lo..Hi-1) >= c and Confidence >= c, both up to the rounding
+//   slack 64(n+2)2^-52 max(c, mass) (c11ExactSlack);
 //   the interval holds a bucket whose mass is within 1e-12 of the largest
 //   (a mode; two modes within rounding of each other are both accepted);
 //   not both end buckets removable: mass - max(end masses) < c + 1e-12
@@ -35,14 +37,19 @@ import (
 // n > 30 (normal regime), ref.C11Norm:
 //   l1*, r1* = mu -+ sigma z; expected Lo = floor(l1*-1/2)+1,
 //   Hi = ceil(r1*-1/2)+1 before clamping, Hi-1 accepted iff Ambiguous is set;
-//   when l1*-1/2 or r1*-1/2 is within 1e-9 of an integer both neighbouring
-//   roundings are accepted (ambiguity window, counted as ambiguous);
+//   when l1*-1/2 or r1*-1/2 is within 1e-9 of an integer the neighbouring
+//   rounding is accepted too (ambiguity window, counted as ambiguous): the
+//   outward one always, the inward one only while the band still carries
+//   normal mass >= c - 1e-13; every accepted band (trimmed ones included)
+//   must carry mass >= c - 1e-13;
 //   Confidence = normal mass of the accepted unclamped band, or 1 when that
-//   band covers [0,n+1], +-1e-9;  Confidence >= c - 1e-9.
+//   band covers [0,n+1], +-1e-9;  Confidence >= c - 1e-13.
 // SampleCI, for every distinct (Lo,Hi) a case produces, on an unsorted
 // presentation (Sorted=false) and on the sorted data with Sorted=true:
 //   q == Sample.Quantile(q) of the same data, lo == x_(Lo) or -Inf for order
 //   0, hi == x_(Hi) or +Inf for order n+1; M-guard with canaries around Xs.
+//   The buffers are refilled in place with other data between rounds (a
+//   result must describe the present contents, not an earlier call's).
 
 type c11Case struct {
 	N  int     `json:"n"`
@@ -71,7 +78,17 @@ const (
 	c11NormalTol = 1e-9  // design: normal masses, n > 30
 	c11Window    = 1e-9  // ambiguity window around a bucket boundary, n > 30
 	c11Threshold = 30
+	// "never below c", n > 30: the normal mass of the band and the reported
+	// Confidence may fall short of c by rounding only (two erfc values and
+	// a subtraction: the unchanged library's worst is 2e-16)
+	c11NormalSlack = 1e-13
 )
+
+// c11ExactSlack is what rounding can explain when a sum of up to n+1 binomial
+// masses (each a product of n factors) of size scale is compared with c.
+func c11ExactSlack(n int, scale float64) float64 {
+	return 64 * float64(n+2) * 0x1p-52 * scale
+}
 
 // c11Sample builds the sample of size n used for SampleCI from a seed.
 func c11Sample(n int, seed uint64) []float64 {
@@ -154,9 +171,18 @@ func c11Judge(w *mon.W, cs c11Case) {
 	}
 
 	if cs.Expand {
+		rng := mon.NewRand(cs.Samp, 0xb0d)
 		if exact {
 			for _, s := range bin.Path {
 				add3(s.Sum)
+				if s.Sum < 1 {
+					// just beyond what rounding can explain above the
+					// cumulative mass, and at random small relative
+					// distances on both sides of it
+					add(s.Sum + 2*c11ExactSlack(n, s.Sum))
+					add(s.Sum * (1 + rng.LogUniform(1e-16, 1e-9)))
+					add(s.Sum * (1 - rng.LogUniform(1e-16, 1e-9)))
+				}
 			}
 			// walk the library's own accumulation: the level one ulp above
 			// each reported Confidence asks for the next step
@@ -170,17 +196,18 @@ func c11Judge(w *mon.W, cs c11Case) {
 				c = math.Nextafter(math.Max(res.Confidence, c), 2)
 			}
 		} else {
+			var ends []float64
 			if nrm.Sigma > 0 {
 				// levels that put l1 (and by symmetry r1) 1e-6 on either
 				// side of a bucket boundary, and on it
 				at := func(x float64) {
+					ends = append(ends, x)
 					for _, d := range []float64{0, 1e-6, -1e-6} {
 						if c := nrm.CForEnd(x + d); c > 0 && c < 1 {
 							add(c)
 						}
 					}
 				}
-				rng := mon.NewRand(cs.Samp, 0xb0d)
 				for _, k := range []int{-2, -1, 0, 1} {
 					at(float64(k) + 0.5)                  // lower clamp
 					at(2*nrm.Mu - (float64(n+1-k) - 0.5)) // r1 at the upper clamp
@@ -203,6 +230,16 @@ func c11Judge(w *mon.W, cs c11Case) {
 			for _, c := range append([]float64(nil), levels...) {
 				if res, ok := c11Call(w, "QuantileCI(feed-back probe, panic only)", n, q, c, sub); ok && !math.IsNaN(res.Confidence) {
 					add3(res.Confidence)
+				}
+			}
+			// levels that put l1 (and r1) within 1e-12..1e-9 of the same
+			// bucket boundaries, on either side: outward rounding must not
+			// give way there (these are not fed back)
+			for _, x := range ends {
+				for _, d := range []float64{5e-11, -5e-11, rng.LogUniform(1e-12, 1e-9), -rng.LogUniform(1e-12, 1e-9)} {
+					if c := nrm.CForEnd(x + d); c > 0 && c < 1 {
+						add(c)
+					}
 				}
 			}
 		}
@@ -316,12 +353,25 @@ func c11JudgeExact(w *mon.W, b *ref.C11Binom, c float64, res stats.QuantileCIRes
 	}
 	// classes from the reference side
 	if c < 1 {
-		st := b.Path[b.StepFor(c)]
+		j := b.StepFor(c)
+		st := b.Path[j]
 		hit(st.ShiftEqual, "ref-shift-equal(n<=30)")
 		hit(!st.ShiftEqual, "ref-shift-unequal(n<=30)")
 		hit(st.Lo == 0, "ref-order-0")
 		hit(st.Hi == n+1, "ref-order-n+1")
 		hit(c < 1e-17, "c<1e-17")
+		// the interval shifted up by one carries nearly, not exactly, the
+		// same mass: a tolerant comparison would call it a tie, and the
+		// difference is large enough for the Ambiguous law to see
+		if d := math.Abs(b.P(st.Hi) - b.P(st.Lo)); !st.ShiftEqual {
+			hit(d > 2*c11ExactTol && d <= 1e-7*math.Max(b.P(st.Lo), b.P(st.Hi)), "ref-shift-nearly-equal(n<=30)")
+		}
+		// c lies above the mass of the previous interval of the path by
+		// more than rounding can explain, but by less than 1e-9 of it
+		if j > 0 {
+			d := c - b.Path[j-1].Sum
+			hit(d > c11ExactSlack(n, c) && d <= 1e-9*c, "c-just-above-cumulative-mass(n<=30)")
+		}
 	}
 	near, at := b.AtCumulative(c)
 	hit(near || at, "c-at-cumulative-mass(+-1ulp)")
@@ -339,8 +389,14 @@ func c11JudgeExact(w *mon.W, b *ref.C11Binom, c float64, res stats.QuantileCIRes
 	if !w.Err("binomial-mass(n<=30)", math.Abs(res.Confidence-mass), c11ExactTol) {
 		w.Violate("confidence-mass", fmt.Sprintf("%s returned [%d,%d] Confidence %.17g, but buckets %d..%d of Binomial(%d,%v) carry %.17g", name, lo, hi, res.Confidence, lo, hi-1, n, q, mass), sub(c))
 	}
-	if !w.Err("confidence>=c(n<=30)", math.Max(0, c-res.Confidence), c11ExactTol) {
-		w.Violate("confidence<c", fmt.Sprintf("%s returned [%d,%d] Confidence %.17g < c (exact mass %.17g)", name, lo, hi, res.Confidence, mass), sub(c))
+	// mass is the float64 nearest to the exact mass: c - mass is off by at
+	// most half an ulp of it, the slack is at least 192 ulps
+	slack := c11ExactSlack(n, math.Max(c, mass))
+	if def := c - mass; !w.Err("exact-mass>=c(n<=30)", math.Max(0, def), slack) {
+		w.Violate("mass<c", fmt.Sprintf("%s returned [%d,%d] Confidence %.17g, but buckets %d..%d of Binomial(%d,%v) carry %.17g, which is below c by %.3g (rounding explains at most %.3g)", name, lo, hi, res.Confidence, lo, hi-1, n, q, mass, def, slack), sub(c))
+	}
+	if def := c - res.Confidence; !w.Err("confidence>=c(n<=30)", math.Max(0, def), slack) {
+		w.Violate("confidence<c", fmt.Sprintf("%s returned [%d,%d] Confidence %.17g < c by %.3g (exact mass %.17g; rounding explains at most %.3g)", name, lo, hi, res.Confidence, def, mass, slack), sub(c))
 	}
 	top := b.PMF[b.ModeLo]
 	hasMode := false
@@ -443,6 +499,12 @@ func c11JudgeNormal(w *mon.W, m ref.C11Norm, c float64, res stats.QuantileCIResu
 		hit(c < 1e-17, "c<1e-17")
 	} else {
 		w.Note("window(n>30)")
+		// an end of the central interval lies just outside a bucket boundary
+		// and the band rounded inward there provably falls short of c: only
+		// the outward rounding is acceptable
+		inward := len(ls) == 2 && ls[1] > l0 && m.Mass(ls[1], r0) < c-c11NormalSlack ||
+			len(rs) == 2 && rs[1] < r0 && m.Mass(l0, rs[1]) < c-c11NormalSlack
+		hit(inward, "end-just-outside-boundary(n>30)")
 		if m.HalfInt && r1-l1 < 2*c11Window {
 			w.Note("point-band-on-bucket-boundary(n>30)")
 		}
@@ -462,17 +524,30 @@ func c11JudgeNormal(w *mon.W, m ref.C11Norm, c float64, res stats.QuantileCIResu
 			}
 		}
 	}
-	ordersOK, confOK := false, false
+	// A band is acceptable only if it holds content c (the statement: the
+	// central interval rounded outward; Confidence is the band's mass and
+	// never below c). Away from the window and for the outward neighbours
+	// inside it this holds by construction; it decides whether an inward
+	// neighbour inside the window and a trimmed band are acceptable.
+	ordersOK, confOK, matched := false, false, false
 	bestDiff, bestWant := math.Inf(1), math.NaN()
+	short, shortWant := math.Inf(1), math.NaN()
 	for _, k := range cands {
 		if k.r <= k.l || c11Clamp(k.l, n) != lo || c11Clamp(k.r, n) != hi {
 			continue
 		}
-		ordersOK = true
+		matched = true
 		want := m.Mass(k.l, k.r)
 		if k.l <= 0 && k.r >= n+1 {
 			want = 1
 		}
+		if sh := math.Max(0, c-want); sh < short {
+			short, shortWant = sh, want
+		}
+		if !(want >= c-c11NormalSlack) {
+			continue
+		}
+		ordersOK = true
 		d := math.Abs(res.Confidence - want)
 		if math.IsNaN(d) {
 			d = math.Inf(1)
@@ -484,7 +559,13 @@ func c11JudgeNormal(w *mon.W, m ref.C11Norm, c float64, res stats.QuantileCIResu
 			confOK = true
 		}
 	}
-	if !ordersOK {
+	if matched {
+		w.Err("band-mass>=c(n>30)", short, c11NormalSlack)
+	}
+	if !ordersOK && matched {
+		w.Violate("band-below-c", fmt.Sprintf("%s returned [%d,%d] Ambiguous=%v Confidence %.17g; the normal mass of that band is %.17g, below c by %.3g (rounding explains at most %.0e): the central interval [%.17g, %.17g] of N(%.17g, %.17g^2) does not lie inside it (an end rounded inward, or the upper bucket trimmed without the content to spare)",
+			name, lo, hi, res.Ambiguous, res.Confidence, shortWant, short, c11NormalSlack, l1, r1, m.Mu, m.Sigma), sub(c))
+	} else if !ordersOK {
 		exp := fmt.Sprintf("[%d,%d]", c11Clamp(l0, n), c11Clamp(r0, n))
 		if window {
 			exp += " or a neighbouring rounding"
@@ -499,8 +580,8 @@ func c11JudgeNormal(w *mon.W, m ref.C11Norm, c float64, res stats.QuantileCIResu
 			w.Violate("confidence-mass", fmt.Sprintf("%s returned [%d,%d] Ambiguous=%v Confidence %.17g, but the normal mass of that band before clamping (1 when it covers everything) is %.17g", name, lo, hi, res.Ambiguous, res.Confidence, bestWant), sub(c))
 		}
 	}
-	if !w.Err("confidence>=c(n>30)", math.Max(0, c-res.Confidence), c11NormalTol) {
-		w.Violate("confidence<c", fmt.Sprintf("%s returned [%d,%d] Confidence %.17g < c", name, lo, hi, res.Confidence), sub(c))
+	if def := c - res.Confidence; !w.Err("confidence>=c(n>30)", math.Max(0, def), c11NormalSlack) {
+		w.Violate("confidence<c", fmt.Sprintf("%s returned [%d,%d] Confidence %.17g < c by %.3g (rounding explains at most %.0e)", name, lo, hi, res.Confidence, def, c11NormalSlack), sub(c))
 	}
 	if res.Ambiguous {
 		w.Note("Ambiguous-reported(n>30)")
@@ -516,38 +597,75 @@ func c11JudgeNormal(w *mon.W, m ref.C11Norm, c float64, res stats.QuantileCIResu
 	return true
 }
 
+// c11Data is one set of contents for the SampleCI presentations.
+type c11Data struct {
+	xs, sorted []float64
+	wantQ      [2]float64
+}
+
+func c11NewData(n int, seed uint64, q float64) *c11Data {
+	d := &c11Data{xs: c11Sample(n, seed)}
+	d.sorted = append([]float64(nil), d.xs...)
+	sort.Float64s(d.sorted)
+	// Sample.Quantile is C10's business; here only "the same value"
+	mon.Call(func() { d.wantQ[0] = stats.Sample{Xs: append([]float64(nil), d.xs...)}.Quantile(q) })
+	mon.Call(func() { d.wantQ[1] = stats.Sample{Xs: append([]float64(nil), d.sorted...), Sorted: true}.Quantile(q) })
+	return d
+}
+
+// c11Refill overwrites the data cells of a guarded presentation in place
+// (same backing array, same length) and re-arms its guards.
+func c11Refill(g *c10Guarded, vals []float64) {
+	copy(g.s.Xs, vals)
+	for i, v := range g.bufX {
+		g.snapX[i] = math.Float64bits(v)
+	}
+}
+
 // c11JudgeSample maps every distinct pair of orders of the case onto a
-// sample of size n.
+// sample of size n. The two presentations (unsorted with Sorted=false, sorted
+// with Sorted=true) keep their backing arrays for the whole case, but their
+// contents alternate between two data sets: after the first SampleCI the
+// buffers are overwritten in place with the other set and the same result is
+// applied again, and so on for every further pair of orders; each call is
+// judged against a fresh sort of what the buffer holds at that moment.
 func c11JudgeSample(w *mon.W, cs c11Case, results []c11Res, sub func(...float64) c11Case) {
 	n, q := cs.N, float64(cs.Q)
 	type pair struct{ lo, hi int }
 	seen := map[pair]bool{}
-	var xs, sorted []float64
-	var wantQ [2]float64
+	var sets [2]*c11Data
 	var pres [2]*c10Guarded
-	for _, r := range results {
-		if !r.ok || seen[pair{r.res.LoOrder, r.res.HiOrder}] {
-			continue
+	rounds, differ := 0, false
+	round := func(r c11Res) {
+		k := rounds % 2
+		rounds++
+		if sets[k] == nil {
+			sets[k] = c11NewData(n, cs.Samp+uint64(k), q)
 		}
-		seen[pair{r.res.LoOrder, r.res.HiOrder}] = true
-		if xs == nil {
-			xs = c11Sample(n, cs.Samp)
-			sorted = append([]float64(nil), xs...)
-			sort.Float64s(sorted)
-			pres[0] = c10Present("given order, Sorted=false", xs, nil, false)
-			pres[1] = c10Present("sorted data, Sorted=true", sorted, nil, true)
-			// Sample.Quantile is C10's business; here only "the same value"
-			mon.Call(func() { wantQ[0] = stats.Sample{Xs: append([]float64(nil), xs...)}.Quantile(q) })
-			mon.Call(func() { wantQ[1] = stats.Sample{Xs: append([]float64(nil), sorted...), Sorted: true}.Quantile(q) })
-			w.HitIf(!sort.Float64sAreSorted(xs), "sample-unsorted")
+		d := sets[k]
+		if pres[0] == nil {
+			pres[0] = c10Present("given order, Sorted=false", d.xs, nil, false)
+			pres[1] = c10Present("sorted data, Sorted=true", d.sorted, nil, true)
+		} else {
+			c11Refill(pres[0], d.xs)
+			c11Refill(pres[1], d.sorted)
+			if rounds == 2 {
+				for i, v := range sets[1-k].sorted {
+					if !c10Same(v, d.sorted[i]) {
+						differ = true
+					}
+				}
+			}
+			w.HitIf(differ, "sample-refilled-in-place")
 		}
+		w.HitIf(!sort.Float64sAreSorted(d.xs), "sample-unsorted")
 		lo, hi := r.res.LoOrder, r.res.HiOrder
 		wantLo, wantHi := math.Inf(-1), math.Inf(1)
 		if lo >= 1 {
-			wantLo = sorted[lo-1]
+			wantLo = d.sorted[lo-1]
 		}
 		if hi <= n {
-			wantHi = sorted[hi-1]
+			wantHi = d.sorted[hi-1]
 		}
 		if lo == 0 {
 			w.Note("SampleCI-with-order-0")
@@ -558,25 +676,40 @@ func c11JudgeSample(w *mon.W, cs c11Case, results []c11Res, sub func(...float64)
 		for _, g := range pres {
 			var gq, glo, ghi float64
 			w.Eval("SampleCI")
-			name := fmt.Sprintf("QuantileCI(%d, %v, %v).SampleCI [orders %d,%d] (%s, sample seed %d)", n, q, r.c, lo, hi, g.name, cs.Samp)
+			name := fmt.Sprintf("QuantileCI(%d, %v, %v).SampleCI [orders %d,%d] (%s, sample seed %d", n, q, r.c, lo, hi, g.name, cs.Samp+uint64(k))
+			if rounds > 1 {
+				name += fmt.Sprintf(", written in place over the contents of the previous call: refill %d of this buffer", rounds-1)
+			}
+			name += ")"
 			if p, v := mon.Call(func() { gq, glo, ghi = r.res.SampleCI(g.s) }); p {
 				w.Violate("panic", fmt.Sprintf("%s panicked: %v", name, v), sub(r.c))
 				continue
 			}
 			if ok, what := g.intact(); !ok {
 				w.Violate("sample-modified", fmt.Sprintf("%s modified the sample: %s", name, what), sub(r.c))
-				fresh := xs
+				fresh := d.xs
 				if g.sorted {
-					fresh = sorted
+					fresh = d.sorted
 				}
 				*g = *c10Present(g.name, fresh, nil, g.sorted)
 			}
 			if !c10Same(glo, wantLo) || !c10Same(ghi, wantHi) {
-				w.Violate("sample-bounds", fmt.Sprintf("%s returned lo=%v hi=%v, order statistics are %v and %v", name, glo, ghi, wantLo, wantHi), sub(r.c))
+				w.Violate("sample-bounds", fmt.Sprintf("%s returned lo=%v hi=%v, order statistics of the present contents are %v and %v", name, glo, ghi, wantLo, wantHi), sub(r.c))
 			}
-			if !c10Same(gq, wantQ[0]) && !c10Same(gq, wantQ[1]) {
-				w.Violate("sample-quantile", fmt.Sprintf("%s returned q=%v, Sample.Quantile(%v) of the same data is %v", name, gq, q, wantQ[0]), sub(r.c))
+			if !c10Same(gq, d.wantQ[0]) && !c10Same(gq, d.wantQ[1]) {
+				w.Violate("sample-quantile", fmt.Sprintf("%s returned q=%v, Sample.Quantile(%v) of the present contents is %v", name, gq, q, d.wantQ[0]), sub(r.c))
 			}
+		}
+	}
+	for _, r := range results {
+		if !r.ok || seen[pair{r.res.LoOrder, r.res.HiOrder}] {
+			continue
+		}
+		seen[pair{r.res.LoOrder, r.res.HiOrder}] = true
+		first := rounds == 0
+		round(r)
+		if first {
+			round(r) // the same orders on the other contents, same buffers
 		}
 	}
 }
@@ -603,7 +736,7 @@ func c11Qs() []float64 {
 
 // c11RandQ draws q from the hostile families.
 func c11RandQ(rng *mon.Rand, n int) float64 {
-	switch rng.Intn(8) {
+	switch rng.Intn(11) {
 	case 0: // (n+1)q next to an integer: two modes within rounding
 		return float64(rng.Range(1, n)) / float64(n+1)
 	case 1: // dyadic: exact ties, exact masses
@@ -621,6 +754,22 @@ func c11RandQ(rng *mon.Rand, n int) float64 {
 		return 1 - rng.LogUniform(1e-9, 0.1)
 	case 5: // nq - 1/2 next to an integer: mu on a bucket boundary
 		return (float64(rng.Range(0, n-1)) + 0.5) / float64(n)
+	case 6: // nearly symmetric: mirrored buckets nearly, not exactly, tied
+		return 0.5 + rng.Sign()*rng.LogUniform(1e-14, 1e-6)
+	case 7, 8: // beside the q at which buckets a < b carry the same mass
+		if n > 60 {
+			return 0.5 + rng.Sign()*rng.LogUniform(1e-14, 1e-6)
+		}
+		a := rng.Range(0, n-1)
+		b := a + rng.Range(1, min(6, n-a))
+		// C(n,a) q^a (1-q)^(n-a) = C(n,b) q^b (1-q)^(n-b)
+		ratio := 1.0 // C(n,a)/C(n,b)
+		for j := a + 1; j <= b; j++ {
+			ratio *= float64(j) / float64(n-j+1)
+		}
+		t := math.Pow(ratio, 1/float64(b-a))
+		q := t/(1+t) + rng.Sign()*rng.LogUniform(1e-14, 1e-6)
+		return math.Min(1, math.Max(0, q))
 	default:
 		return rng.Float64()
 	}
@@ -642,18 +791,19 @@ func c11RandCs(rng *mon.Rand, k int) []float64 {
 }
 
 func c11Run(r *mon.Run) {
-	r.Rule("exact regime: every n=1..30 x q in {j/40, 1e-9, 1-1e-9} x c in {j/200 (exact regime, thorough: j/2000), 0.999..1-1e-12, 1e-3..1e-300, 5e-324, 1-1e-16, 1, nextafter(1), 2, +Inf} plus, per (n,q), every cumulative mass of the reference's greedy path and every Confidence reported along the library's own path, each with both nextafter neighbours, fed back as c. normal regime: n in {31..36, 50, 100, 101, 1000, 2000} (thorough: every n=31..130 and 200,500,999,1500) on the same q and c, plus per (n,q) levels that put an end of the central normal interval on / 1e-6 beside bucket boundaries at both clamps, near mu and at random, the levels where the band just covers [0,n+1], and the reported Confidences +-1ulp fed back. random: n, q from hostile families ((n+1)q or nq-1/2 beside an integer, dyadic, grid+-1ulp, within 1e-9..0.1 of 0 and 1, uniform) x 40 random c, expanded the same way. SampleCI on every distinct pair of orders of every case (unsorted with Sorted=false, sorted with Sorted=true; 5 sample families). Non-trivial = hits a reference-side class; distinct by hash of (n,q,c) in the grid classes and of (n,q,levels) in the random classes; c at a cumulative mass (+-1ulp) and normal end points within 1e-9 of a bucket boundary are counted as ambiguous.")
+	r.Rule("exact regime: every n=1..30 x q in {j/40, 1e-9, 1-1e-9} x c in {j/200 (exact regime, thorough: j/2000), 0.999..1-1e-12, 1e-3..1e-300, 5e-324, 1-1e-16, 1, nextafter(1), 2, +Inf} plus, per (n,q), every cumulative mass of the reference's greedy path and every Confidence reported along the library's own path, each with both nextafter neighbours, fed back as c, and every cumulative mass of the reference path plus twice the rounding slack and times 1+-LogUniform(1e-16,1e-9). normal regime: n in {31..36, 50, 100, 101, 1000, 2000} (thorough: every n=31..130 and 200,500,999,1500) on the same q and c, plus per (n,q) levels that put an end of the central normal interval on / 1e-6 beside bucket boundaries at both clamps, near mu and at random, the levels where the band just covers [0,n+1], and the reported Confidences +-1ulp fed back, plus levels that put the end +-5e-11 and +-LogUniform(1e-12,1e-9) from each of those boundaries. random: n, q from hostile families ((n+1)q or nq-1/2 beside an integer, dyadic, grid+-1ulp, within 1e-9..0.1 of 0 and 1, 1/2+-LogUniform(1e-14,1e-6), the q at which two buckets at most 6 apart carry equal mass +-LogUniform(1e-14,1e-6), uniform) x 40 random c, expanded the same way. SampleCI on every distinct pair of orders of every case (unsorted with Sorted=false, sorted with Sorted=true; 5 sample families); the two guarded buffers of a case are overwritten in place with another data set between consecutive SampleCI rounds (the first pair of orders is applied to both sets) and every call is judged against a fresh sort of the present contents. Non-trivial = hits a reference-side class; distinct by hash of (n,q,c) in the grid classes and of (n,q,levels) in the random classes; c at a cumulative mass (+-1ulp) and normal end points within 1e-9 of a bucket boundary are counted as ambiguous.")
 	r.Assume("domain: n>=1, 0<=q<=1, c>0 (c<=0 and NaN are not confidence levels and are never generated); samples finite, unweighted, of size n",
-		"exact regime: q is taken as the exact rational value of the float64; tolerance 1e-12 on masses and on Confidence>=c (31 products of a few ulp each); a bucket within 1e-12 of the largest mass counts as a mode",
+		"exact regime: q is taken as the exact rational value of the float64; tolerance 1e-12 on masses (31 products of a few ulp each); 'at least c' is judged on the exact mass of the returned buckets and on the reported Confidence with the rounding-scale slack 64(n+2)2^-52 max(c, mass) (at least 8x the worst deficit of a float64 accumulation of the masses); a bucket within 1e-12 of the largest mass counts as a mode",
 		"'at least one end bucket is needed' is judged as stated (not both removable: mass - max(end masses) < c + 1e-12), not as the stronger 'the smaller end is needed'",
-		"normal regime: mu, sigma correctly rounded from exact nq, nq(1-q); inverse of Phi by bisection on math.Erfc, checked at start-up against the 384-bit Newton inversion; window 1e-9 around bucket boundaries; Confidence +-1e-9 and >= c-1e-9",
+		"normal regime: mu, sigma correctly rounded from exact nq, nq(1-q); inverse of Phi by bisection on math.Erfc, checked at start-up against the 384-bit Newton inversion; window 1e-9 around bucket boundaries, inside which the outward neighbour is always accepted and the inward one only if its band still carries normal mass >= c-1e-13; Confidence +-1e-9 of the band's mass; band mass and Confidence >= c-1e-13 (rounding of two erfc values)",
 		"for n>30 the Ambiguous flag is only required where the upper order is one below the outward rounding; nesting is asserted for n<=30 only (as stated)")
 	r.Gate("n<=30", "n>30", "q=0|1", "c>=1", "c<1e-17", "c-at-cumulative-mass(+-1ulp)", "c==cumulative-mass",
 		"ref-shift-equal(n<=30)", "ref-shift-unequal(n<=30)", "exact-tie-modes", "near-tie-modes",
 		"trim-feasible(n>30)", "trim-infeasible(n>30)", "symmetric-band(n>30)", "asymmetric-band(n>30)",
 		"ref-clamped-at-0", "ref-clamped-at-n+1", "ref-order-0", "ref-order-n+1",
 		"full-range(n>30,c<1)", "full-range-mass<1-2e-9", "window(n>30)", "point-band-on-bucket-boundary(n>30)",
-		"sample-unsorted")
+		"sample-unsorted",
+		"ref-shift-nearly-equal(n<=30)", "c-just-above-cumulative-mass(n<=30)", "end-just-outside-boundary(n>30)", "sample-refilled-in-place")
 	if err := ref.C11SelfTest(); err != nil {
 		r.Inconclusive("reference self-test failed: " + err.Error())
 		return
